@@ -90,7 +90,8 @@ CHECKS = {
               "start, 1 from finish, monotone in the step, and for EVERY sequence of callback hooks the applied factors never decrease and "
               "every quantizer with the knob holds the latest one (induction over the hook list). Correspondence: float32-faithful mixing "
               "model vs the implementation over four storage routes; the real QNoiseScheduler driven over random schedules and hook histories."
-              " Scheduler updates are also observed through tf.functions traced right after on_train_begin (the compiled training step), for quantizers used before training as well."),
+              " Scheduler updates are also observed through tf.functions traced right after on_train_begin (the compiled training step), for quantizers used before training as well."
+              " The mixture returned by quantized_linear (plain arithmetic, regenerated by lingen.py into coq/gen/LinGen.v) is proved to be the interpolation, x at factor 0 and xq at factor 1."),
         design_ref="DESIGN.md section 5 C07, section 10, section 10.10",
         note=(TB_COMMON + "np.power is a Section variable with four named hypotheses (denominator positive, 0 at 0, range, monotone); the run "
               "instantiates it with integer exponents and compares to 2^-48. Keras's Callback plumbing is replaced by stand-in model/layer objects."),
